@@ -102,7 +102,7 @@ package tchannel
 //@   property C02
 //@ closure init 3
 // (about the captured table: checked in init(), where the closure is created)
-//@   requires tablepoly(crc32CastagnoliTable) == 0x82F63B78
+//@   captures tablepoly(crc32CastagnoliTable) == 0x82F63B78
 //@   label crc32c-is-the-Castagnoli-polynomial
 //@   atcall newHashChecksum arg0 == ChecksumTypeCrc32C && crcpoly(arg1) == 0x82F63B78
 //@   property C02
